@@ -416,3 +416,76 @@ def rule_substscope(ctx):
             res.inst(ikey, f["sp"]["file"], f["sp"]["line"], "ok", "%d substitution lists" % n)
     res.require_floor(3)
     return res
+
+
+def rule_counter(ctx):
+    """R-COUNTER: a copy of the identifier counter that is lent to a callee is joined again"""
+    fx = ctx.fx
+    res = RuleResult("R-COUNTER", "the identifier counter is one cell: wherever a function of core_lang / core2axcut / axcut lends a `&mut ID` to "
+                     "a callee that is not its own `&mut ID` parameter (or a field reached through a `&mut` parameter) but a local copy, the "
+                     "copy is read again afterwards - stored as the max_id of the result, written back, or compared - so the ids the callee "
+                     "drew are not forgotten. A copy that is only lent and then dropped lets two parts of the program draw the same ids: "
+                     "binders are no longer unique on a path")
+    n = 0
+    for key, f in sorted(fx.fns.items()):
+        if f["crate"] not in ID_CRATES | {"fun2core", "driver"} or "{promoted" in key:
+            continue
+        fn = None
+        for bi, b in enumerate(f["blocks"]):
+            for si, s in enumerate(b["stmts"]):
+                if s["k"] != "assign" or s["rv"]["k"] != "ref" or not s["rv"].get("mut"):
+                    continue
+                pl = s["rv"]["pl"]
+                if pl["p"] or f["locals"][pl["l"]]["ty"] != "usize" or pl["l"] <= f["argc"]:
+                    continue
+                fn = fn or Fn(f)
+                if bi not in fn.reach:
+                    continue
+                L = pl["l"]
+                # is the borrow handed to a call?
+                lent = []
+                work, seen = [s["lhs"]["l"]], set()
+                while work:
+                    r = work.pop()
+                    if r in seen:
+                        continue
+                    seen.add(r)
+                    for u in fn.uses().get(r, []):
+                        if u["kind"] == "arg":
+                            lent.append(u["term"])
+                        elif u["kind"] == "rv" and u["stmt"]["rv"]["k"] in ("use", "ref", "cast") and not u["stmt"]["lhs"]["p"]:
+                            work.append(u["stmt"]["lhs"]["l"])
+                if not lent:
+                    continue
+                n += 1
+                ikey = "%s@counter-copy:%d" % (key, sum(1 for b2 in f["blocks"][:bi + 1] for s2 in b2["stmts"] if s2["k"] == "assign" and s2["rv"]["k"] == "ref" and s2["rv"].get("mut")
+                                                       and not s2["rv"]["pl"]["p"] and s2["rv"]["pl"]["l"] == L))
+                # a read of the copy after (one of) the calls
+                call_blocks = {bj for bj, blk in enumerate(f["blocks"]) if any(blk["term"] is t_ for t_ in lent)}
+                after = set()
+                for cb in call_blocks:
+                    after |= set(fn.reach_from(cb)) - {cb} | ({cb} if cb in fn.reach_from(cb) and False else set())
+                read = False
+                for bj in after:
+                    blk = f["blocks"][bj]
+                    for s2 in blk["stmts"]:
+                        if s2["k"] != "assign":
+                            continue
+                        rv2 = s2["rv"]
+                        ops = [rv2.get("op"), rv2.get("a"), rv2.get("b")] + list(rv2.get("ops", []))
+                        if any(isinstance(o, dict) and o.get("pl") and o["pl"]["l"] == L and not o["pl"]["p"] for o in ops):
+                            read = True
+                    t2 = blk["term"]
+                    if t2["k"] == "call" and any(a.get("pl") and a["pl"]["l"] == L and not a["pl"]["p"] for a in t2["args"]):
+                        read = True
+                if read:
+                    res.inst(ikey, s["sp"]["file"], s["sp"]["line"], "ok", "the copy is read again after it was lent")
+                else:
+                    res.inst(ikey, s["sp"]["file"], s["sp"]["line"], "violation")
+                    res.violate(ikey, "%s lends a local copy of the identifier counter to %s and never reads the copy again: the ids drawn there are "
+                                "forgotten, and what is numbered next draws the same ids again" %
+                                (key.split(" as ")[0].lstrip("<").split("::")[-1] if " as " in key else key.split("::")[-1], "/".join(sorted({t_.get("callee_name") or "?" for t_ in lent}))),
+                                s["sp"]["file"], s["sp"]["line"])
+    if n < 1:
+        raise AnalysisError("R-COUNTER: no place lends a local copy of the counter (Prog::focus does on the pinned tree)")
+    return res
